@@ -325,6 +325,14 @@ pub fn run(tier: Tier) -> i32 {
             cases.push(Case { label: format!("mixed codes, filter {:?} count", l), input: Input::Bytes(b.clone()), args: a, exit: Exit::Code(9), total: None, shown: Some(Shown::Exactly(n)), must_not_exist: vec![] });
         }
     }
+    // ---- an error cap does not switch off the end-of-run custom checks: a `cdps` value no stream can have fails whether
+    //      the run was cut short by the cap or not, is shown with `-w 9001` and sets the exit status
+    for cap in ["1", "2", "4", "1000"] {
+        let a = s(&["check", "all", "its", "-E", "9", "-e", cap, "-c", "@TOMLTEXT:cdps = 1000000", "-w", "9001"]);
+        cases.push(Case { label: format!("custom-check failure with an error cap of {cap}"), input: Input::Bytes(mixed_stream.clone()), args: a, exit: Exit::Code(9), total: None, shown: Some(Shown::Exactly(1)), must_not_exist: vec![] });
+        let a = s(&["check", "sanity", "-E", "9", "-e", cap, "-c", "@TOMLTEXT:cdps = 1000000", "-w", "9001"]);
+        cases.push(Case { label: format!("custom-check failure on clean data with an error cap of {cap}"), input: Input::Bytes(clean_bytes.clone()), args: a, exit: Exit::Code(9), total: None, shown: Some(Shown::Exactly(1)), must_not_exist: vec![] });
+    }
     // ---- four-digit codes: custom-check failures (E9001 / E9002) with code filters incl. their prefixes
     {
         let npk = clean.packets.len();
